@@ -295,6 +295,66 @@ def registry_consistent(ctx, rule):
                   detail={'class': c.name, 'type': src(tv) if tv is not None else None})
 
 
+def to_bytes_is_fresh(ctx, rule):
+    """Message.to_bytes() serialises the message as it is *now*: it keeps no copy of an earlier result on the object and returns
+    none.  The callers rely on that - the COOKIE and INVALID_KE retries edit the request in place and serialise it again, the AUTH
+    octets are taken from the bytes that were sent."""
+    fi = ctx.func(M + 'Message.to_bytes')
+    S = ctx.sval(fi)
+    me = ('param', 'self')
+    kept = [tq.text(t, 80) for t, v, pc, st, _ in S.stores if strip_ids(t)[0] == 'attr' and strip_ids(t)[1] == me]
+
+    def leaves(t):
+        if t[0] == 'cond':
+            return leaves(t[2]) + leaves(t[3])
+        return [t]
+    stale = [tq.text(x, 80) for pc, t, _ in S.returns for x in leaves(strip_ids(t))
+             if x[0] == 'attr' or (tq.is_call(x) and len(tq.args(x)) == 1 and list(tq.args(x).values())[0][0] == 'attr'
+                                   and list(tq.args(x).values())[0][1] == me)]
+    ctx.check(not kept and not stale and bool(S.returns), rule, 'Message.to_bytes builds its result from the current fields on every call '
+              '(nothing kept on the message, nothing kept returned)', key=(rule, 'to-bytes-fresh'), site=ctx.site(fi, fi.node),
+              detail={'stored on self': kept, 'returned from self': stale})
+
+
+def ctor_keeps_values(ctx, rule, only=None):
+    """the constructors of the message classes keep what they are given: every attribute is the like-positioned parameter itself, that
+    parameter passed through the enum of its field (a value-preserving wrap), or - for a parameter left at None - a freshly generated
+    value (nonce, IV).  Nothing is trimmed, padded, re-encoded or re-ordered on the way in, so what the encoder later writes and what
+    the configuration / negotiation handed over are the same octets."""
+    prog = ctx.prog
+    n = 0
+    for q, fi in sorted(prog.functions.items()):
+        if not (q.startswith('message.') and q.endswith('.__init__')) or not isinstance(fi.node, ast.FunctionDef):
+            continue
+        cname = q.split('.')[-2]
+        if only is not None and cname not in only:
+            continue
+        S = ctx.sval(fi)
+        params = {('param', a) for a in fi.call_params()}
+        for t, v, pc, st, _ in S.stores:
+            t, v = strip_ids(t), strip_ids(v)
+            if not (t[0] == 'attr' and t[1] == ('param', 'self')):
+                continue
+            n += 1
+
+            def kept(v):
+                if v in params or v[0] == 'const':
+                    return True
+                if v[0] == 'cond':
+                    return kept(v[2]) and kept(v[3])
+                if v[0] == 'call' and isinstance(v[1], str) and v[1].startswith('enum ') and len(v[3]) == 1 and v[3][0][1] in params:
+                    return True
+                if v[0] == 'call' and isinstance(v[1], tuple) and v[1][0] == 'dyn' and len(v[3]) == 1 and v[3][0][1] in params \
+                        and tq.contains(v[1][1], ('attr', ('param', 'self'), '_transform_id_enums')):
+                    return True         # Transform: the id in the registry of its transform type
+                return False
+            fresh = any(a[0][0] == 'cmp' and a[0][1] == 'is' and ('const', 'NoneType', None) in a[0][2:] and a[1] and
+                        any(x in params for x in a[0][2:]) for a in strip_ids(tuple(pc)))
+            ctx.check(kept(v) or fresh, rule, '%s keeps `%s` as it is given (parameter, its enum, or a generated default for None)' % (
+                cname, tq.text(t)), key=(rule, 'ctor', cname, t[2]), site=ctx.site(fi, st), detail={'stored': tq.text(v, 200)})
+    ctx.floor('%s constructor attributes of the message classes' % rule, n, 2 * len(only) if only else 40, rule=rule)
+
+
 def run(ctx):
     prog, res = ctx.prog, ctx.res
     esc = ctx.escape('engine', kills=common.engine_kills(ctx))
@@ -340,6 +400,14 @@ def run(ctx):
     # Encrypted payload (3.14): the Integrity Checksum Data field has the length of the negotiated transform's ICV
     from .c07 import icv_table
     icv_table(ctx, 'W2')
+
+    to_bytes_is_fresh(ctx, 'W4')
+    ctor_keeps_values(ctx, 'W1')
+    # the critical-bit rule (3.2) holds for payloads inside the Encrypted payload as well: what the chain parser raises for them
+    # leaves Message.parse as it is, not re-labelled by a handler around the decryption
+    common.exception_passes(ctx, 'W4', M + 'Message.parse', M + 'Message._parse_payloads', 'UnsupportedCriticalPayload',
+                            'UnsupportedCriticalPayload raised for a payload of the chain (clear or encrypted) leaves Message.parse unchanged',
+                            'critical-relabelled')
 
     # ---------------------------------------------------------------- W3
     registry_consistent(ctx, 'W3')
